@@ -691,7 +691,7 @@ Proof.
   intros Hv Hnf Hsat Hmin.
   destruct (cp_reconstruct_total I sigma Hv Hnf Hsat) as [S HS].
   destruct (cp_sound I sigma S Hv Hnf Hsat HS) as (Hf & Hc & Hmk).
-  exists S. repeat split; auto.
+  exists S. split; [exact HS|]. split; [exact Hf|]. split; [exact Hc|]. split; [exact Hmk|]. split.
   - exists S. auto.
   - intros S' Hf' Hc'. rewrite Hmk.
     assert (Hpos : (0 < num_ops I)%nat).
@@ -744,4 +744,74 @@ Theorem opt_bf_sound I c :
   valid I -> opt_bf I = Some c -> exists S, feasible I S /\ complete I S /\ makespan I S = c.
 Proof.
   intros Hv H. unfold opt_bf in H. eapply bf_sound; [exact Hv| |exact H]. simpl. apply Inv_init.
+Qed.
+
+(** ** [solve]: no memory, statuses *)
+
+Lemma find_all_false {A} (f : A -> bool) (l : list A) : (forall x, In x l -> f x = false) -> find f l = None.
+Proof.
+  induction l as [|a t IH]; intros H; simpl; [reflexivity|].
+  rewrite (H a (or_introl eq_refl)). apply IH. intros x Hx. apply H. right; exact Hx.
+Qed.
+
+Lemma nonflex_no_exn I : nonflex I -> machine_id_exn I = None.
+Proof.
+  intros Hnf. unfold machine_id_exn. rewrite find_all_false; [reflexivity|].
+  intros o Ho. apply in_concat in Ho. destruct Ho as (job & Hjob & Ho).
+  apply In_nth_error in Hjob. destruct Hjob as [j Hj]. apply In_nth_error in Ho. destruct Ho as [p Hp].
+  destruct (Hnf j p o) as [m Hm]; [unfold get_op; rewrite Hj; exact Hp|]. rewrite Hm. reflexivity.
+Qed.
+
+Lemma build_keys I prev : st_keys (build I prev) = all_keys I.
+Proof. reflexivity. Qed.
+
+Lemma build_mk I prev : st_mk (build I prev) = Some (mkvar I).
+Proof.
+  unfold build, set_objective, add_machine_constraints, add_job_constraints, create_variables, reset_model, mkvar.
+  simpl. rewrite length_flat2, all_keys_length. reflexivity.
+Qed.
+
+(** The outcome of [solve] does not depend on the state the solver object was
+    left in by earlier calls, and the model it leaves behind is [cp_encode I]. *)
+Theorem solve_no_memory kk I prev stat sigma :
+  snd (solve_gen kk I prev stat sigma) = snd (solve_gen kk I fresh_state stat sigma) /\
+  (machine_id_exn I = None -> st_model (fst (solve_gen kk I prev stat sigma)) = cp_encode I).
+Proof.
+  unfold solve_gen, initialize. destruct (machine_id_exn I) as [e|]; [split; [reflexivity|discriminate]|].
+  split.
+  - rewrite !build_mk, !build_keys. destruct stat; reflexivity.
+  - intros _. rewrite build_keys.
+    destruct stat; try reflexivity;
+      destruct (reconstruct_gen kk I (all_keys I) sigma); reflexivity.
+Qed.
+
+(** [NoSolutionFoundError] exactly when the status is neither OPTIMAL nor
+    FEASIBLE; otherwise a feasible complete schedule with the reported makespan. *)
+Theorem solve_outcome I prev stat sigma :
+  valid I -> nonflex I ->
+  match stat with
+  | StOptimal | StFeasible =>
+      sat sigma (cp_encode I) ->
+      exists S, snd (solve I prev stat sigma) =
+                  inl (S, ((match stat with StOptimal => 1 | _ => 0 end), sigma (mkvar I))) /\
+                feasible I S /\ complete I S /\ makespan I S = sigma (mkvar I)
+  | _ => snd (solve I prev stat sigma) = inr CpNoSolution
+  end.
+Proof.
+  intros Hv Hnf. unfold solve, solve_gen, initialize. rewrite (nonflex_no_exn I Hnf).
+  rewrite build_mk, build_keys.
+  destruct stat; try reflexivity; intros Hsat;
+    destruct (cp_reconstruct_total I sigma Hv Hnf Hsat) as [S HS];
+    unfold reconstruct in HS; rewrite HS; exists S; (split; [reflexivity|]);
+    apply (cp_sound I sigma S Hv Hnf Hsat); exact HS.
+Qed.
+
+(** Boolean witnesses for the concrete examples. *)
+Lemma validb_valid I : validb I = true -> valid I.
+Proof.
+  unfold validb. rewrite forallb_forall. intros H j p o Hg. unfold get_op in Hg.
+  destruct (nth_error I j) as [job|] eqn:Ej; [|discriminate]. apply nth_error_In in Ej.
+  specialize (H job Ej). rewrite forallb_forall in H. apply nth_error_In in Hg.
+  specialize (H o Hg). unfold valid_opb in H. apply andb_true_iff in H. destruct H as [H _].
+  apply Z.leb_le; exact H.
 Qed.
